@@ -1,4 +1,16 @@
 (* REGENERATED from src/mxlpy/{scan,mc,parallel,simulation}.py by harness/c09.py; do not edit.
-   An unrecognised shape yields false / PhUnknown, which breaks C09_facts_pinned. *)
+   An unrecognised shape yields false / *Unknown, which breaks C09_facts_pinned / C09_entry_points_pinned. *)
+From Coq Require Import List.
 From Scan Require Import ScanModel.
-Definition gen_scan_facts : scan_facts := mkScanFacts true true true true true true PhStepGrid.
+Import ListNotations.
+Definition gen_scan_facts : scan_facts := mkScanFacts true true true true true true PhStepGrid TcWithStart PtcJoined DupRefuse.
+Definition gen_entry_points : list entry_point :=
+  [ mkEP ScanSteadyState WkSteadyState CList ParByFlag false;
+    mkEP ScanTimeCourse WkTimeCourse CDict ParByFlag true;
+    mkEP ScanProtocol WkProtocol CDict ParByFlag true;
+    mkEP ScanProtocolTimeCourse WkProtocolTimeCourse CDict ParByFlag true;
+    mkEP McSteadyState WkSteadyState CList ParMaxWorkers false;
+    mkEP McTimeCourse WkTimeCourse CDict ParMaxWorkers true;
+    mkEP McProtocol WkProtocol CDict ParMaxWorkers true;
+    mkEP McProtocolTimeCourse WkProtocolTimeCourse CDict ParMaxWorkers true;
+    mkEP McScanSteadyState WkParameterScan CDictOfScans ParMaxWorkers true ].
